@@ -22,10 +22,11 @@ CLAIMS = {
         "MakeMoveFromString in Go, model and spec fold; every printed legal move parsed back on the Go side.", ref='5/C03, 10.4'),
  'C04': dict(cat='proof', tech='Lean 4 theorems about the executable search model (PV legality for all table contents) + black-box correspondence + spec judge of answers and PVs',
    text="PROVED on the search model (Props/C04): every PV written by negamax is a line of generated moves each passing MakeMove+IsLegal, for arbitrary contents of the shared tables "
-        "(negamax_pv_legal_partial, hypothesis: window inside [-INF, INF]); the answer is the head of the adopted PV (search_answer_head). The search model (negamax, quiescence, TT, killers, history, SEE, "
+        "(negamax_pv_legal_partial, hypothesis: window inside [-INF, INF]); the iteration loop only adopts legal lines and the answer of search is the head of one, from any sane table and any root whose reachable positions have a bounded evaluation "
+        "(Props/C04c: adopted_pv_legal_sane, answer_legal_sane, answer_fide_legal_sane; an in-window root score is never -32718, the one score whose wrapped aspiration window would leave that range); the answer is the head of the adopted PV (search_answer_head). The search model (negamax, quiescence, TT, killers, history, SEE, "
         "all pruning, int16 wrap) is compared with the Go search on every info line, node and poll count with cancellation at chosen polls; answers and PVs are judged by the FIDE spec; "
         "Go-only searches to depth 5 and UCI dialogues (second position on the same game object, immediate timeouts) are judged with the engine's own generator.", ref='5/C04, 10.4',
-   note='Partial: PV legality is proved for windows inside the score range and adopted PVs under the hypothesis that no adopted score equals -32718 (int16 wrap of the aspiration window); see DESIGN 10.4.'),
+   note='The node-level theorem is stated for windows inside the score range (it is false outside, kernel-evaluated counterexample in Props/C04c); the loop-level theorems need only a sane table and a bounded evaluation, both invariants; see DESIGN 10.4.'),
  'C05': dict(cat='proof', tech='Lean 4 theorems about cancellation, depth and termination of the iteration loop + correspondence with cancellation oracle + measured wall-clock',
    text="PROVED on the search model (Props/C05): after the poll that reports done every further node entry returns cancelled without counting a node (negamax_after_cancel, quiescence_after_cancel), "
         "the cancelling poll is the last poll of the whole tree (negamax_cancel_last_poll), loops stop at the first cancelled child, the iteration loop ends at once (searchIterative_stops), reported depths never exceed the request "
@@ -34,8 +35,8 @@ CLAIMS = {
    ref='5/C05, 10.4', note='Partial with respect to the runtime: wall-clock bounds are measured with slack, not proved; termination of check-extension chains is assumed (fuel).'),
  'C06': dict(cat='proof', tech='Lean 4 inductive invariant of the UCI transition system (kernel-checked finite closure) + go/ast source-order facts required by theorem + concurrent dialogues',
    text="PROVED (Props/C06): for the transition system of reader, search goroutine, flag and cancellation under a rule-obeying GUI, every reachable state (dialogues of any length, any interleaving) satisfies: no go refused, "
-        "no position refused after bestmove, no stop lost, no bestmove without go, no deadlock, next position accepted. 17 order-of-events / lock-discipline facts are extracted from the source with go/ast on every run "
-        "and required by theorem (source_facts_hold). Concurrent dialogues (back-to-back writes, stop/isready bursts) are driven through the real line handler in-process and through the real binary: bestmove/readyok counts, "
+        "no position refused after bestmove, no stop lost, no bestmove without go, no deadlock, next position accepted. 17 order-of-events / lock-discipline facts are extracted from the source on every run by an abstract interpretation of the handlers "
+        "(event sequences with helper calls inlined, guards as truth tables over the flag values) and required by theorem (source_facts_hold). Concurrent dialogues (back-to-back writes, stop/isready bursts) are driven through the real line handler in-process and through the real binary: bestmove/readyok counts, "
         "no deadlock, stop latency, whole output lines, legal answers.", ref='5/C06, 10.4',
    note='Go scheduler fairness, channel/context semantics and write(2) atomicity are trusted; promptness is measured.'),
  'C07': dict(cat='proof', tech='Lean 4 totality and faithfulness theorems for the go parser + correspondence + dialogues through the real handler and binary',
@@ -44,7 +45,8 @@ CLAIMS = {
         "parameters and messages; expected parameters asserted independently on the Go side; sequential dialogues incl. unknown commands through the real handler (no panic) and the real binary.", ref='5/C07, 10.4'),
  'C08': dict(cat='proof', tech='Lean 4 theorems on calculateTime as regenerated from the Go source text on every run (go2lean; generic unfold/split/omega script) + correspondence of the regenerated definition with the running function',
    text="PROVED on every run about the definition that tools/go2lean regenerates from the text of calculateTime (Props/C08): budget < clock of the mover whenever it is known, budget < explicit movetime, both at once, "
-        "and independence of the opponent's clock and increment. The generic proof script re-proves property-preserving rewrites and fails on breaking ones. The regenerated definition is executed by the driver and compared with the "
+        "and independence of the opponent's clock and increment. The generic proof script re-proves property-preserving rewrites (helpers are translated on demand and unfolded) and fails on breaking ones; if the function leaves the translatable subset or the script does not close, "
+        "the same statements on the hand-written model (Props/M08) together with the model-vs-code correspondence are the second route. The regenerated definition is executed by the driver and compared with the "
         "Go function on a boundary grid, random values and through the go-command path (parse, then budget); the clauses are also asserted on the Go side.", ref='5/C08, 10.6'),
  'C09': dict(cat='proof', tech='Lean 4 theorems for arbitrary key tables (incremental = from-scratch hash, path independence, single-component distinctness) + kernel check of the real keys + correspondence',
    text="PROVED (Props/C09): every primitive and MakeMove/null move/FEN load keep hash = from-scratch hash (makeMove_hash, makeNull_hash, parseFen_hash), equal components give equal hashes (hash_path_independent), "
